@@ -61,7 +61,7 @@ var plans = map[string]plan{
 	},
 	"C07": {
 		Property: "C07", Level: "exploration",
-		Quick:    []phase{{Scen: "C07", Seeds: 12000, Batch: 500}, {Scen: "C07H", Seeds: 5000, Batch: 250}},
+		Quick:    []phase{{Scen: "C07", Seeds: 12000, Batch: 500}, {Scen: "C07H", Seeds: 5000, Batch: 250}, {Scen: "C07R", Seeds: 800, Batch: 50, GMP: "4"}},
 		Thorough: []phase{{Scen: "C07", Seeds: 1200000, Batch: 5000}, {Scen: "C07H", Seeds: 300000, Batch: 2500}, {Scen: "C07R", Seeds: 20000, Batch: 500, Race: true}},
 		Rule:     "seeded: 2..4 reader tasks (Get, List) and 1..2 writer tasks (Refresh, missing Get) running concurrently over 1..3 gated sources; the scheduler holds an update open at every source call and at the yield point before each snapshot publication while readers run; clock jumps across TTL and refresh interval with readers calling at once; advertisement times grow monotonically. Oracles: a read of cached data returns in the step it was called in; every read equals the reference model as of the last publication (no missing provider, no half-built listing); no reader goes back in time. Thorough adds real-thread parallel windows under the race detector. Non-trivial when two actions were simultaneously enabled; distinct = distinct (schedule hash, canonical log hash)",
 		Real:     []string{"pcache.ProviderCache"},
